@@ -196,7 +196,10 @@ def gen_model(rng):
                      ([H.make_opsetid("custom.domain", 1)] if rng.random() < 0.3 else []))
     if rng.random() < 0.3:
         m.producer_name = "verif"
-    for fi in range(rng.choice([0, 0, 1, 2])):
+    nfun = rng.choice([0, 0, 1, 2])
+    if nfun and m.ir_version < 10 and rng.random() < 0.85:
+        m.ir_version = 10     # IR<10 keeps function value-info in an experimental format the model leaves out
+    for fi in range(nfun):
         fn = _Names(rng)
         ins = [fn.fresh() for _ in range(rng.randrange(0, 3))]
         fg = gen_graph(rng, fn, list(ins), 1, "")
